@@ -213,6 +213,24 @@ CHECKS.update({
         design="DESIGN.md §3 C02"),
 })
 
+CHECKS.update({
+    "C16": dict(
+        technique="TLA+ character-level recognisers of every documented value domain (FimDomains: label formats and ranges, tag and "
+                  "name patterns, size limits) + the entry points as a state machine whose invariant is 'everything stored lies "
+                  "in its domain'; TLC enumerates a mutation grammar of members and near-misses; every candidate x scalar/list "
+                  "form x entry point is executed on the real classes and model elements and judged by Trace_FimDomains",
+        text="The oracle is written in TLA+ on strings (split, digit/hex classes, 32-bit-safe decimal comparison) and checked by TLC "
+             "for two-sidedness and for the documented examples; ~27k (thorough ~150k) candidate operations - boundary numbers, "
+             "wrong separators, dropped/extra groups, foreign characters at selected (thorough: all) positions, leading/trailing/"
+             "embedded newline and blank, lengths around every size limit - arrive through constructor, copy-with-changes, "
+             "from_json, element assignment and update_labels, tags, sliver/element names (create, assign, rename), boot "
+             "scripts and the three JSON blob classes (text, object, element); accept/reject and the value read back must "
+             "equal the oracle, and the stored state must satisfy the invariant after every call.",
+        note="ASCII candidate grammar (Unicode digits/letters that \\d / \\w also match are outside it); ipv6 follows the "
+             "published pattern (<= 8 groups of <= 4 hex digits), not RFC 4291.",
+        design="DESIGN.md §3 C16"),
+})
+
 PENDING = {}
 
 
